@@ -66,7 +66,9 @@ class CheckC20(core.Check):
         maxp = sessions.max_payloads(parsed)
         pays = [sessions.payload_len_choice(rnd, m, 0.05) for m in maxp]
         prologue = sessions.prologue_choice(rnd, 32, 64)
-        plan = [(0 if parsed.oneway else rnd.randrange(2), rnd.choice([0, 1, 16, 100, 5000])) for _ in range(rnd.randrange(1, 6))]
+        plan = [(0 if parsed.oneway else rnd.randrange(2), rnd.choice([0, 1, 16, 100, 5000, rnd.randrange(0, 200), rnd.randrange(0, 200)])) for _ in range(rnd.randrange(1, 8))]
+        # payload buffers: large, exact, a few spare bytes (the back ends take different code paths)
+        rbufs = [rnd.choice([BIG, ln, ln + rnd.randrange(1, 16), ln + 16]) for _d, ln in plan]
         stateless = rnd.random() < 0.3
         runs = []
         for j, (ra, rb) in enumerate(ASSIGN):
@@ -75,7 +77,7 @@ class CheckC20(core.Check):
             sessions.add_pair(c, parsed, keys, res=(ra, rb), rng=("script:%d" % seed, "script:%d" % (seed + 1)), prologue=(prologue, prologue), rec=("-", "-"), ids=ids)
             sessions.add_handshake(c, parsed, ["gen:%d:hp%d.%d" % (ln, seed, i) for i, ln in enumerate(pays)], ids=ids, prefix="m%d_" % j)
             sessions.add_convert(c, ids=ids, stateless=stateless)
-            sessions.add_transport(c, parsed, [(d, "gen:%d:tp%d.%d" % (ln, seed, i)) for i, (d, ln) in enumerate(plan)], ids=ids, stateless=stateless, prefix="t%d_" % j)
+            sessions.add_transport(c, parsed, [(d, "gen:%d:tp%d.%d" % (ln, seed, i)) for i, (d, ln) in enumerate(plan)], ids=ids, stateless=stateless, prefix="t%d_" % j, rbufs=rbufs)
             if not stateless:
                 c.op("rekey_out", ids[0])
                 c.op("rekey_in", ids[1])
@@ -153,7 +155,11 @@ class CheckC20(core.Check):
                     seq.append(("missing",))
                     continue
                 if e.panic:
-                    r.foreign_dev("C10", "panic in %s" % e.op)
+                    if j > 0 and ref is not None:
+                        # the default/default run of the same scenario completed: a back end that panics instead is not interchangeable
+                        r.viol("C20|panic|%s-%s|%s" % (ASSIGN[j] + (e.op,)), "%s: %s panics under back ends %s/%s (%s) while default/default completes" % (name, e.op, ASSIGN[j][0], ASSIGN[j][1], e.res[:100]))
+                    else:
+                        r.foreign_dev("C10", "panic in %s" % e.op)
                     return r
                 o = e.obs()
                 seq.append((e.op, e.res, e.kv.get("out"), o.get("hh"), o.get("turn"), o.get("fin"), o.get("sn"), o.get("rn"), o.get("rs")))
